@@ -139,10 +139,20 @@ func G1HashToPoint(m []byte) *bn256.G1 {
 }
 
 // yParity calculates whether the provided Y coordinate is an even or odd
-// number. Returns 0x01 if Y is an even number and 0x00 if it's odd.
+// number. Returns 0x01 if Y is an odd number and 0x00 if it's even (zero
+// included).
 func yParity(y *big.Int) byte {
-	arr := y.Bytes()
-	return arr[len(arr)-1] & 1
+	return byte(y.Bit(0))
+}
+
+// isZero returns true if all bytes of the slice are zero.
+func isZero(m []byte) bool {
+	for _, b := range m {
+		if b != 0 {
+			return false
+		}
+	}
+	return true
 }
 
 // Compress compresses point by using X value and the parity bit of Y
@@ -196,6 +206,12 @@ func (g G2Point) Compress() []byte {
 // top byte as 0x01 (even) or 0x00 (odd).
 func DecompressToG1(m []byte) (*bn256.G1, error) {
 
+	// The point at infinity has no affine coordinates; it is compressed to
+	// all zeros, which is not the X coordinate of any point on the curve.
+	if isZero(m) {
+		return G1FromInts(big.NewInt(0), big.NewInt(0))
+	}
+
 	// Get the original X.
 	x := new(big.Int).SetBytes(append([]byte{m[0] & 0x7F}, m[1:]...))
 
@@ -222,6 +238,13 @@ func DecompressToG1(m []byte) (*bn256.G1, error) {
 // top byte as 0x01 (even) or 0x00 (odd).
 func DecompressToG2(m []byte) (*bn256.G2, error) {
 
+	// The point at infinity has no affine coordinates; it is compressed to
+	// all zeros, which is not the X coordinate of any point on the curve.
+	if isZero(m) {
+		zero := &gfP2{big.NewInt(0), big.NewInt(0)}
+		return G2FromInts(zero, zero)
+	}
+
 	// Get the X.
 	x := new(gfP2)
 	x.x = new(big.Int).SetBytes(m[32:64])
@@ -232,6 +255,10 @@ func DecompressToG2(m []byte) (*bn256.G2, error) {
 	y2 := new(gfP2).pow(x, big.NewInt(3))
 	y2.add(y2, twistB)
 	y := sqrtGfP2(y2)
+
+	if y == nil {
+		return nil, errors.New("failed to decompress G2")
+	}
 
 	// Compare calculated Y parity with the original Y parity in the top bit of
 	// the compressed point. If it doesn't match, we know `Y1 + Y2 = P`, so we
@@ -268,7 +295,8 @@ func x2y(x, y *gfP2) bool {
 	return y.x.Cmp(x.x) == 0 && y.y.Cmp(x.y) == 0
 }
 
-// sqrtGfP2 returns square root of a gfP2 element.
+// sqrtGfP2 returns square root of a gfP2 element if such a square root exists.
+// If x is not a square, function returns nil.
 func sqrtGfP2(x *gfP2) *gfP2 {
 
 	// (bn256.p^2 + 15) // 32)
@@ -276,11 +304,16 @@ func sqrtGfP2(x *gfP2) *gfP2 {
 
 	y := new(gfP2).pow(x, exp)
 
-	// Multiply y by hexRoot constant to find correct y.
-	for !x2y(x, y) {
+	// Multiply y by hexRoot constant to find correct y. hexRoot is a 16th
+	// root of unity so the candidates repeat after 16 steps; if none of them
+	// is a square root of x, there is none.
+	for i := 0; i < 16; i++ {
+		if x2y(x, y) {
+			return y
+		}
 		y.multiply(y, hexRoot)
 	}
-	return y
+	return nil
 }
 
 // pow returns gfP2 element to the power of the provided exponent.
